@@ -18,7 +18,8 @@ EXPLANATION = (
     "exactly the types Grain.rateexpr dispatches on; R3 the variant reached by composing the class's code table with its dispatch chain is "
     "algebraically equivalent (canonical form over positive reals) to the reference law of that database code, with beta/gamma = 0 where the "
     "code omits the factor; R4 rateexpr / rate_* are not memoised (their result depends on coefficients that __hash__/__eq__ ignore); "
-    "R5 the expression of reaction i is assigned to k[i] of the same enumerate position over the unfiltered reaction list (shared with C06.R1).")
+    "R5 the expression of reaction i is assigned to k[i] of the same enumerate position over the unfiltered reaction list (shared with C06.R1); "
+    "R8 the list of rate statements has one entry per reaction: no filter / slice on its spine between `reactions` and the positional override rateeqns[idx].")
 ASSUMPTIONS = [
     "reference laws are the published formulae transcribed in DESIGN.md Appendix A (KIDA help, McElroy+2013, Walsh+2015, UCLCHEM rates.f90)",
     "floating-point evaluation at extreme magnitudes and repr(float) of inf/nan are not decided",
@@ -249,6 +250,7 @@ def check(ctx):
     _r1(ctx, rm, pkg, allv)
     _r2_r3(ctx, rm, pkg, allv)
     _r4(ctx, pkg)
+    _r8(ctx, pkg)
     # the law of reaction i is what is assigned to k[i] (shared with C06.R1: statement / index / rate expression of the same reaction)
     from .c06 import _r1 as assignment_rule
     ctx.absorb(assignment_rule, "R5")
@@ -492,6 +494,103 @@ def _r2_r3(ctx, rm, pkg, allv):
         ctx.check(gtypes == rtypes, "R2", "Reaction.rateexpr grain list == Grain.rateexpr chain", ("naunet/grains/grain.py", 0),
                   "the types the native class hands to the grain are exactly the types the grain dispatches on",
                   expected=str(sorted(gtypes)), found=str(sorted(rtypes)))
+
+
+# ------------------------------------------------------------------ R8  (positional statement lists)
+
+TL = "naunet/templateloader.py"
+_LEN_KEEPING = ("list", "tuple", "iter", "tqdm", "enumerate", "zip", "map", "reversed", "sorted")
+
+
+def _spine(v, bases, depth=0):
+    """The SPINE of a list-valued expression: the chain of comprehensions / zip / enumerate / map / copies that leads from the base
+    sequence(s) to the list, as opposed to the expressions that build one ELEMENT.  -> (evidence, open): `evidence` the constructs on the
+    spine that can change the NUMBER of entries (a comprehension filter, filter(..), a slice), `open` what is not understood."""
+    ev, op = [], []
+    if depth > 12:
+        return ev, ["nesting too deep"]
+    v = simp(v)
+    if bases(v):
+        return ev, op
+    k = v[0]
+    if k in ("phi", "ifexp") and len(v) == 4:
+        for arm in (v[2], v[3]):
+            e_, o_ = _spine(arm, bases, depth + 1)
+            ev += e_
+            op += o_
+    elif k == "copy":
+        return _spine(v[1], bases, depth + 1)
+    elif k == "comp" and v[1] in ("list", "gen") and len(v[3]) == 1:
+        tg, it, ifs = v[3][0]
+        ev += [f"comprehension filter `if {show(c)[:60]}`" for c in ifs]
+        e_, o_ = _spine(it, bases, depth + 1)
+        ev += e_
+        op += o_
+    elif k == "comp":
+        op.append(f"comprehension with {len(v[3])} loops: {show(v)[:60]}")
+    elif k == "call" and v[1][0] == "global" and v[1][1] in _LEN_KEEPING and v[2]:
+        seqs = v[2][1:] if v[1][1] == "map" else v[2][:1] if v[1][1] in ("enumerate", "sorted", "reversed", "list", "tuple", "iter", "tqdm") else v[2]
+        for a in seqs:
+            e_, o_ = _spine(a, bases, depth + 1)
+            ev += e_
+            op += o_
+    elif k == "call" and v[1] in (("global", "filter"), ("global", "compress"), ("attr", ("global", "itertools"), "compress"), ("global", "takewhile"), ("global", "dropwhile")):
+        ev.append(f"{show(v[1])}(..): {show(v)[:60]}")
+    elif k == "sub" and v[2][0] == "slice":
+        ev.append(f"slice {show(v)[:60]}")
+        e_, o_ = _spine(v[1], bases, depth + 1)
+        ev += e_
+        op += o_
+    else:
+        op.append(show(v)[:80])
+    return ev, op
+
+
+def _r8(ctx, pkg):
+    """The statement of reaction i sits at POSITION i of the list _assign_rates returns: _prepare_ode_content overrides `rateeqns[idx]` by
+    the reaction's position (rate_modifier), and the templates paste the list in order.  So the list has exactly one entry per reaction:
+    nothing on its spine -- from `reactions` to the returned list, and from the call to the positional store -- filters, slices or
+    compacts it (a skipped "0.0" placeholder shifts every later statement under the override of another reaction)."""
+    fn = pkg.method("TemplateLoader", "_assign_rates")
+    ctx.saw(TL, "TemplateLoader._assign_rates")
+    fl = Flow(fn, TL, resolver=lambda name: pkg.resolve("TemplateLoader", name)[1])
+    params = [a.arg for a in fn.args.args]
+    rets = [f for f in fl.facts if f.kind == "return" and f.value is not None]
+    n = 0
+    for f in rets:
+        v = simp(f.value)
+        if v[0] == "acc":
+            from ..valueflow import loop_built_seq
+            lb = loop_built_seq(fl, v[1])
+            if lb is None:
+                continue        # (a list filled by a loop this rule does not read: R5 says what it thinks of it)
+            v = lb[0].iter
+        ev, op = _spine(v, lambda x: x[0] == "param" and x[1] in params)
+        n += 1
+        key = "_assign_rates:one-statement-per-reaction"
+        if ev:
+            ctx.bad("R8", key, (TL, f.line), "the list of rate statements is filtered on its way from `reactions` to the returned list (" + "; ".join(ev[:2]) + "): it no longer has one entry "
+                    "per reaction, while _prepare_ode_content overrides `rateeqns[idx]` by the reaction's POSITION -- the rate_modifier of one reaction replaces the statement of another, "
+                    "whose coefficient is then never assigned", expected="one statement per reaction, in the order of `reactions`", found=ev[0])
+        elif not op:
+            ctx.ok("R8", key, (TL, f.line), "no filter / slice between `reactions` and the returned statement list")
+    # ... and between the call and the positional store
+    pn = pkg.method("TemplateLoader", "_prepare_ode_content")
+    ctx.saw(TL, "TemplateLoader._prepare_ode_content")
+    pf = Flow(pn, TL)
+    stores = [f for f in pf.facts if f.kind == "store" and f.loops and f.index is not None and any(isinstance(x, tuple) and x and x[0] == "idx" for x in walk(simp(f.index)))]
+    for tgt in sorted({f.target for f in stores}):
+        inits = [f for f in pf.facts if f.kind == "init" and f.target == tgt]
+        if len(inits) != 1 or not any(x[0] == "meth" and x[2] == "_assign_rates" for x in walk(simp(inits[0].value)) if isinstance(x, tuple) and len(x) == 5):
+            continue
+        ev, op = _spine(inits[0].value, lambda x: x[0] == "meth" and len(x) == 5 and x[2] == "_assign_rates")
+        n += 1
+        key = f"_prepare_ode_content:{tgt}[position]"
+        if ev:
+            ctx.bad("R8", key, (TL, inits[0].line), f"`{tgt}` is filtered (" + "; ".join(ev[:2]) + ") between _assign_rates(..) and the store `" + tgt + "[idx] = ..` that addresses a reaction's statement by "
+                    "the reaction's position: the override lands on the statement of another reaction", expected=f"{tgt} = self._assign_rates(..)", found=show(simp(inits[0].value))[:120])
+        elif not op:
+            ctx.ok("R8", key, (TL, inits[0].line), f"`{tgt}[idx]` addresses the list _assign_rates returned, entry for entry")
 
 
 # ------------------------------------------------------------------ R4
@@ -741,3 +840,13 @@ MUTANTS += [{"name": "leeds-shield-column-table-by-basename", "edits": _leeds_co
             {"name": "leeds-shield-column-table-wrong-column", "edits": _leeds_column_table("name", "h2col"), "rules": ["R3"]}]
 BENIGN.append({"name": "uclchem-shield-by-equality", "file": UC, "old": 'if re1.name in ["CO"]:', "new": 'if re1.name == "CO":'})
 MUTANTS.append({"name": "uclchem-shield-by-equality-other-species", "file": UC, "old": 'if re1.name in ["CO"]:', "new": 'if re1.name == "CO" or re1.name == "N2":', "rules": ["R3"]})
+
+TLF = "naunet/templateloader.py"
+_ENUM_OLD = "            for ridx, (trange, rateexpr) in enumerate(zip(tranges, rateexprs))\n        ]\n\n        return rateassign\n"
+MUTANTS += [
+    {"name": "assign-rates-skips-zero-placeholders", "file": TLF, "old": _ENUM_OLD,
+     "new": "            for ridx, (trange, rateexpr) in enumerate(zip(tranges, rateexprs))\n            if rateexpr != \"0.0\"\n        ]\n\n        return rateassign\n", "rules": ["R8"]},
+    {"name": "ode-content-compacts-rate-statements", "file": TLF, "old": "        rateeqns = self._assign_rates(rate_sym, reactions, grains)\n",
+     "new": "        rateeqns = [eq for eq in self._assign_rates(rate_sym, reactions, grains) if not eq.endswith(\"= 0.0;\")]\n", "rules": ["R8"]},
+]
+BENIGN.append({"name": "assign-rates-returns-list-of-generator", "file": TLF, "old": "        return rateassign\n\n    def _prepare_ode_content(", "new": "        return list(iter(rateassign))\n\n    def _prepare_ode_content("})
